@@ -227,7 +227,7 @@ func genVolumeRun(d *RunDesc) {
 	d.MapSeed = simrt.Mix(d.Seed, 3)
 	d.MapPolicy = simrt.MapCanonical
 	d.Sched.Policy = simrt.PolicyNone
-	const n = 1<<16 + 3000
+	const n = 1<<16 + 16000 // about one vector in twelve repeats an earlier value set (all-Not-Defined shapes); the rest must still exceed 2^16
 	const keep = 1500
 	ops := make([]Op, 0, n+keep)
 	for i := 0; i < n; i++ {
@@ -235,7 +235,7 @@ func genVolumeRun(d *RunDesc) {
 		ops = append(ops, Op{K: "dsc", Kind: k, Vec: v, Dst: i + 1})
 	}
 	for i := 0; i < keep; i++ {
-		ops = append(ops, Op{K: "obs", Obj: &Ref{I: i + 1}, Obs: "Score"})
+		ops = append(ops, Op{K: "rsc", Obj: &Ref{I: i + 1}})
 	}
 	d.Tasks = [][]Op{ops}
 	d.CrossCap = 4000
